@@ -24,6 +24,7 @@ CONSTANTS Pkgs,           \* set of package names
           Order,          \* the packages sorted by import path (sequence)
           Gens,           \* generator names of the model (sequence: registration order)
           Dep,            \* package -> set of local packages it imports
+          Closure(_),     \* set of packages -> its closure under Dep
           Under,          \* package -> set of packages whose directories lie below its directory
           RootPkg,        \* the package in the module root, or "none"
           HashCoversSum,  \* BOOLEAN: the root package's hash covers gengo.sum (the code before the fix)
@@ -59,8 +60,9 @@ HashOf(p) == <<Own(p), [q \in Under[p] |-> Own(q)], IF p = RootPkg /\ HashCovers
 NoSum == [present |-> FALSE, m |-> [p \in Pkgs |-> None], canon |-> TRUE]
 
 (* ---------------------------------------------------------------- selection *)
-RECURSIVE Closure(_)
-Closure(S) == LET T == S \cup UNION {Dep[p] : p \in S} IN IF T = S THEN S ELSE Closure(T)
+(* Closure(S): S and everything reachable through Dep. It is a parameter of the module (an operator constant) so that the
+   module itself is free of recursive definitions and can be read by the proof system; the model-checking configurations
+   supply the recursive definition (MC_Pipeline!MCClosure), the proofs need nothing about it. *)
 Local(a) == Closure(a.entry)                          \* packages of the module that get loaded
 Selected(a) == IF a.all THEN Local(a) ELSE a.entry
 InOrder(S) == SelectSeq(Order, LAMBDA p : p \in S)
